@@ -408,8 +408,19 @@ def destroy_once(prog, chk, rid, classes=tuple(NODE)):
                         if lb is None or R is None:
                             continue
                         defs = q.local_defs(f)
+                        # the destroyed node may be read out of the loop's iterator first (`Item* item = i.item;`)
+                        inits_ = [init for kind, _n, init in defs.get(R["id"], []) if init is not None]
+                        if len(inits_) == 1:
+                            R_it = base_local(f, inits_[0])
+                            if R_it is not None and R_it["id"] != R["id"] and "Iterator" in R_it.get("t", ""):
+                                R = R_it
                         ds = [norm(f, init, {}, defs) for kind, _n, init in defs.get(R["id"], []) if init is not None]
                         if "this->_begin.item" in ds and any(s.endswith("->next") for s in ds):
+                            ok = True
+                        # the same walk written with the container's Iterator: starts at _begin, stepped by operator++ inside the loop
+                        if ("this->_begin" in ds or "this->begin()" in ds) and any(
+                                n["k"] == "CXXOperatorCallExpr" and n.get("oop") == "++" and (f.node_pos(n["i"]) or (None,))[0] in lb and
+                                base_local(f, n["c"][1] if len(n["c"]) > 1 else -1) is not None and base_local(f, n["c"][1])["id"] == R["id"] for n in f.nodes):
                             ok = True
                     if ok:
                         chk.ok(rid, f, "%s destroys every node of the list walk" % short, "%s:%s" % (f.file, f.line), "destructor call inside the _begin..endItem loop")
